@@ -172,6 +172,28 @@ def gen_two_level():
                 yield f"{pn}[{pos}]<-{lf!r}", pb(kids)
 
 
+def gen_composite_children():
+    """parent[pos] <- child whose own FIRST and LAST operands are composite (a sum, a negative constant, a product): the child's text then begins and ends with a
+    parenthesis of its operands, which must not be mistaken for parentheses around the child."""
+    A = alphabet()
+    import pymbolic.primitives as p
+    a, b, c = p.Variable("a"), p.Variable("b"), p.Variable("c")
+    ends = [(p.Sum((a, b)), p.Sum((b, c))), (-3, -2), (p.Sum((a, b)), -3), (p.Product((a, b)), p.Sum((a, c))), (p.Quotient(a, b), p.FloorDiv(b, c)), (p.If(a, b, c), p.If(c, b, a))]
+    two = [n for n, (ar, _) in A.items() if ar == 2]
+    fill = [a, b, c]
+    for pn, (par, pb) in A.items():
+        for pos in range(par):
+            for cn in two:
+                for e1, e2 in ends:
+                    try:
+                        child = A[cn][1]([e1, e2])
+                    except Exception:   # noqa: BLE001
+                        continue
+                    kids = [fill[(i + 1) % 3] for i in range(par)]
+                    kids[pos] = child
+                    yield f"{pn}[{pos}]<-{cn}(composite ends)", pb(kids)
+
+
 REDUCED = ["Sum", "Product", "Quotient", "FloorDiv", "Power", "LeftShift", "BitwiseNot", "BitwiseOr", "BitwiseAnd", "LogicalNot", "LogicalAnd", "Lt", "If", "CallArg", "SubIdx",
            "Lookup"]
 
@@ -274,11 +296,14 @@ def roundtrip(b, label, e, fns):
 def b_two(tier):
     b = BoundedRun("parent-child", rule="for every (parent type, child position, child type) of the printable alphabet (33 parent forms incl. n-ary, comparison operators, call "
                    "function / argument / keyword positions, subscript aggregate / index / tuple index, slices, tuples as arguments and indices) with every child form and every "
-                   "leaf kind (variable, positive / negative int, positive / negative float, floats whose repr has an exponent sign, 0, True): parse(str(e)) equals e after "
+                   "leaf kind (variable, positive / negative int, positive / negative float, floats whose repr has an exponent sign, 0, True), and every binary child "
+                   "form whose own first and last operands are composite (text beginning and ending with its operands' parentheses): parse(str(e)) equals e after "
                    "flattening nested sums/products (constants compared with their type), and str(parse(str(e))) == str(e); where the trees differ the values are compared "
                    "over {-2,1,3}^3 too", bound="depth 2, exhaustive over the alphabet", functions=["StringifyMapper.map_*", "Parser"])
     fns = ["StringifyMapper", "Parser"]
     for label, e in gen_two_level():
+        roundtrip(b, label, e, fns)
+    for label, e in gen_composite_children():
         roundtrip(b, label, e, fns)
     return b
 
